@@ -51,6 +51,12 @@ def run(tier, seed):
                     atoms.append(getattr(T, nm)(*args))
                 except Exception:
                     pass
+        # strings with a non-default collation are still strings (pyspark >= 4)
+        for coll in ("UTF8_LCASE", "UNICODE", "UTF8_BINARY"):
+            try:
+                atoms.append(T.StringType(coll))
+            except Exception:
+                pass
         nested = []
         for a in (T.IntegerType(), T.StringType(), T.DateType(), T.DecimalType(10, 2)):
             nested.append(T.ArrayType(a))
